@@ -213,7 +213,7 @@ func runMapShardsAccounting(c *core.Ctx) {
 		f := c.Fn(coord + ".(*PointsWriter).MapShards")
 		info := f.Info()
 		loops := f.Graph().Loops()
-		c.Need(len(loops) >= 2, "two loops in MapShards")
+		c.Need(len(loops) >= 1, "loops in MapShards")
 		mapPoint := calleeIn(f, coord+".(*ShardMapping).MapPoint")
 		isDroppedAppend := func(e *core.Event) bool {
 			if e.Kind != core.EvAssign {
@@ -242,6 +242,23 @@ func runMapShardsAccounting(c *core.Ctx) {
 			}
 			if has(evCall(fieldCallIn(f, "PointsWriter.MetaClient", "CreateShardGroup"))) {
 				resolveLoop = l
+			}
+		}
+		// the group-resolution loop may have been extracted into an unexported helper of MapShards
+		rf := f
+		if resolveLoop == nil {
+			for _, g := range withLocalHelpers(c.P, f)[1:] {
+				for _, l := range g.Graph().Loops() {
+					rs, ok := l.Stmt.(*ast.RangeStmt)
+					if !ok {
+						continue
+					}
+					for _, e := range g.Graph().Find(evCall(fieldCallIn(g, "PointsWriter.MetaClient", "CreateShardGroup"))) {
+						if rs.Body.Pos() <= e.Pos() && e.Pos() < rs.Body.End() {
+							resolveLoop, rf = l, g
+						}
+					}
+				}
 			}
 		}
 		c.Need(mapLoop != nil && resolveLoop != nil, "mapping loop and resolution loop of MapShards")
@@ -276,8 +293,8 @@ func runMapShardsAccounting(c *core.Ctx) {
 			c.Check("shard-from-ShardFor", fmt.Sprintf("%s/MapPoint#%d", f.Name, i+1), c.P.Pos(e.Pos()), good, "the shard passed to MapPoint must be the result of sg.ShardFor(p)")
 		}
 		// resolution loop: guard-skip, or Add, or fail
-		add := calleeIn(f, coord+".(*sgList).Add")
-		findOrAbort(c, f, "sgList.Add", evCall(add), 1)
+		add := calleeIn(rf, coord+".(*sgList).Add")
+		findOrAbort(c, rf, "sgList.Add", evCall(add), 1)
 		var guard ast.Expr
 		if rs, ok := resolveLoop.Stmt.(*ast.RangeStmt); ok {
 			for _, st := range rs.Body.List {
@@ -289,7 +306,7 @@ func runMapShardsAccounting(c *core.Ctx) {
 		c.Need(guard != nil, "guard of the resolution loop")
 		isGuard := func(x ast.Expr) bool { return x == guard }
 		bad := ""
-		complete := f.Flow().ExplorePathsMarked(func(k core.VarKey, fct core.Fact) bool {
+		complete := rf.Flow().ExplorePathsMarked(func(k core.VarKey, fct core.Fact) bool {
 			return k.Root == nil && strings.HasPrefix(k.Path, "cond:") && fct.Def == guard
 		}, func(e *core.Event) string {
 			if e == resolveLoop.BodyEntry {
@@ -316,18 +333,18 @@ func runMapShardsAccounting(c *core.Ctx) {
 		c.Need(complete, "exploration bound MapShards")
 		c.Check("missing-group-is-an-error", f.Name+"/resolution-loop", c.P.Pos(resolveLoop.Stmt.Pos()), bad == "", bad)
 		// list.Add receives the group returned by CreateShardGroup, nil-checked
-		csg := fieldCallIn(f, "PointsWriter.MetaClient", "CreateShardGroup")
-		for i, e := range f.Graph().Find(evCall(add)) {
+		csg := fieldCallIn(rf, "PointsWriter.MetaClient", "CreateShardGroup")
+		for i, e := range rf.Graph().Find(evCall(add)) {
 			var arg ast.Expr = e.Call.Args[0]
 			if s, ok := ast.Unparen(arg).(*ast.StarExpr); ok {
 				arg = s.X
 			}
-			fact := f.Flow().FactOfExpr(e, arg)
+			fact := rf.Flow().FactOfExpr(e, arg)
 			ce, ok := fact.Def.(*ast.CallExpr)
 			c.Check("missing-group-is-an-error", fmt.Sprintf("%s/Add#%d", f.Name, i+1), c.P.Pos(e.Pos()), ok && csg(ce) && fact.Nil == core.NonNil,
 				"sgList.Add must receive the group returned by MetaClient.CreateShardGroup after a nil check")
 		}
-		errPropagated(c, f, "error-surfaces", "CreateShardGroup", csg)
+		errPropagated(c, rf, "error-surfaces", "CreateShardGroup", csg)
 	}
 }
 
@@ -335,87 +352,134 @@ func runMapShardsAccounting(c *core.Ctx) {
 func runRetentionCutoff(c *core.Ctx) {
 	{
 		f := c.Fn(coord + ".(*PointsWriter).MapShards")
-		info := f.Info()
-		// min := time.Unix(0, MinNanoTime); if rp.Duration > 0 { min = time.Now().Add(-rp.Duration) }
-		var minObj types.Object
 		durF := c.P.LookupField(metap, "RetentionPolicyInfo", "Duration")
-		finite := false
-		ast.Inspect(f.Body, func(nd ast.Node) bool {
-			ifs, ok := nd.(*ast.IfStmt)
+		// The cut-off is computed in MapShards or in an unexported helper it calls. Every expression that can
+		// become the cut-off is either time.Now().Add(-rp.Duration), and then only on paths where `rp.Duration > 0`
+		// was established, or the minimum representable time (an infinite policy never drops a point).
+		isNowMinusDuration := func(g *core.FuncInfo, x ast.Expr) bool {
+			ce, ok := ast.Unparen(x).(*ast.CallExpr)
+			if !ok || len(ce.Args) != 1 {
+				return false
+			}
+			se, ok := ce.Fun.(*ast.SelectorExpr)
+			if !ok || se.Sel.Name != "Add" {
+				return false
+			}
+			inner, ok := ast.Unparen(se.X).(*ast.CallExpr)
 			if !ok {
-				return true
+				return false
 			}
-			be, ok := ast.Unparen(ifs.Cond).(*ast.BinaryExpr)
-			if !ok || be.Op != token.GTR || !mentionsField(info, be.X, durF) || !isZeroLit(info, be.Y) {
-				return true
+			if fn, ok := core.Callee(g.Info(), inner).(*types.Func); !ok || fn.Pkg() == nil || fn.Pkg().Path() != "time" || fn.Name() != "Now" {
+				return false
 			}
-			for _, st := range ifs.Body.List {
-				as, ok := st.(*ast.AssignStmt)
-				if !ok || len(as.Lhs) != 1 || len(as.Rhs) != 1 {
-					continue
-				}
-				ce, ok := as.Rhs[0].(*ast.CallExpr)
-				if !ok || len(ce.Args) != 1 {
-					continue
-				}
-				se, ok := ce.Fun.(*ast.SelectorExpr)
-				if !ok || se.Sel.Name != "Add" {
-					continue
-				}
-				inner, ok := ast.Unparen(se.X).(*ast.CallExpr)
-				if !ok {
-					continue
-				}
-				if fn, ok := core.Callee(info, inner).(*types.Func); !ok || fn.Pkg() == nil || fn.Pkg().Path() != "time" || fn.Name() != "Now" {
-					continue
-				}
-				if u, ok := ast.Unparen(ce.Args[0]).(*ast.UnaryExpr); ok && u.Op == token.SUB && mentionsField(info, u.X, durF) {
-					finite = true
-					if id, ok := as.Lhs[0].(*ast.Ident); ok {
-						minObj = info.ObjectOf(id)
+			u, ok := ast.Unparen(ce.Args[0]).(*ast.UnaryExpr)
+			return ok && u.Op == token.SUB && mentionsField(g.Info(), u.X, durF)
+		}
+		finite, infinite, badFinite := 0, 0, ""
+		for _, g := range withLocalHelpers(c.P, f) {
+			// value sites: right-hand sides of assignments to a time.Time local, and returned expressions
+			type site struct {
+				ev *core.Event
+				x  ast.Expr
+			}
+			var sites []site
+			for _, e := range g.Graph().Events {
+				switch nd := e.Node.(type) {
+				case *ast.AssignStmt:
+					if e.Kind == core.EvAssign && len(nd.Lhs) == len(nd.Rhs) {
+						for _, r := range nd.Rhs {
+							if isNowMinusDuration(g, r) || strings.Contains(core.ExprStr(r), "MinNanoTime") {
+								sites = append(sites, site{e, r})
+							}
+						}
+					}
+				case *ast.ReturnStmt:
+					if e.Kind == core.EvReturn {
+						for _, r := range nd.Results {
+							if isNowMinusDuration(g, r) || strings.Contains(core.ExprStr(r), "MinNanoTime") {
+								sites = append(sites, site{e, r})
+							}
+						}
 					}
 				}
 			}
-			return true
-		})
-		c.Check("retention-cutoff", f.Name+"/min=now-Duration", f.PosStr(), finite && minObj != nil,
-			"for a finite retention policy the cut-off must be time.Now().Add(-rp.Duration), assigned under `rp.Duration > 0`")
-		if minObj != nil {
-			// initial value: the minimum representable time (infinite policies never drop)
-			initOK := false
-			ast.Inspect(f.Body, func(nd ast.Node) bool {
-				as, ok := nd.(*ast.AssignStmt)
-				if !ok || as.Tok != token.DEFINE || len(as.Lhs) != 1 || !isIdentObj(info, as.Lhs[0], minObj) {
-					return true
+			if len(sites) == 0 {
+				continue
+			}
+			ginfo := g.Info()
+			complete := g.Flow().ExplorePaths(func(k core.VarKey, fct core.Fact) bool {
+				return k.Root == nil && strings.HasPrefix(k.Path, "cond:") && fct.Def != nil && mentionsField(ginfo, fct.Def, durF)
+			}, func(e *core.Event, st core.State) {
+				for _, s := range sites {
+					if s.ev != e {
+						continue
+					}
+					if !isNowMinusDuration(g, s.x) {
+						infinite++
+						continue
+					}
+					finite++
+					positive := false
+					for k, fct := range st {
+						if k.Root != nil || !strings.HasPrefix(k.Path, "cond:") || fct.Def == nil || fct.Bool == 0 {
+							continue
+						}
+						var atoms []atomB
+						decompose(fct.Def, fct.Bool == 1, &atoms)
+						for _, a := range atoms {
+							be, ok := ast.Unparen(a.x).(*ast.BinaryExpr)
+							if !ok || !mentionsField(ginfo, be.X, durF) || !isZeroLit(ginfo, be.Y) {
+								continue
+							}
+							if be.Op == token.GTR && a.val || be.Op == token.LEQ && !a.val || be.Op == token.NEQ && a.val || be.Op == token.EQL && !a.val {
+								positive = true
+							}
+						}
+					}
+					if !positive {
+						badFinite = "time.Now().Add(-rp.Duration) becomes the cut-off on a path where rp.Duration > 0 was not established @" + c.P.Pos(e.Pos())
+					}
 				}
-				if strings.Contains(core.ExprStr(as.Rhs[0]), "MinNanoTime") {
-					initOK = true
-				}
-				return true
 			})
-			c.Check("retention-cutoff", f.Name+"/infinite-policy-never-drops", f.PosStr(), initOK, "the cut-off must start at models.MinNanoTime so that an infinite policy never drops a point")
+			c.Need(complete, "exploration bound "+g.Name)
 		}
+		c.Check("retention-cutoff", f.Name+"/min=now-Duration", f.PosStr(), finite >= 1 && badFinite == "",
+			"for a finite retention policy the cut-off must be time.Now().Add(-rp.Duration), taken only under `rp.Duration > 0`: "+badFinite)
+		c.Check("retention-cutoff", f.Name+"/infinite-policy-never-drops", f.PosStr(), infinite >= 1, "the cut-off of an infinite policy must be models.MinNanoTime so that it never drops a point")
 		// guard of the resolution loop == tooOld || covered
 		pc := &core.PredCompiler{P: c.P}
 		var guard ast.Expr
-		for _, l := range f.Graph().Loops() {
-			rs, ok := l.Stmt.(*ast.RangeStmt)
-			if !ok {
-				continue
-			}
-			for _, st := range rs.Body.List {
-				if ifs, ok := st.(*ast.IfStmt); ok && strings.Contains(core.ExprStr(ifs.Cond), "Covers") {
-					guard = ifs.Cond
+		gf := f // the function that holds the guard: MapShards or the helper the resolution loop was moved to
+		for _, g := range withLocalHelpers(c.P, f) {
+			for _, l := range g.Graph().Loops() {
+				rs, ok := l.Stmt.(*ast.RangeStmt)
+				if !ok {
+					continue
+				}
+				for _, st := range rs.Body.List {
+					if ifs, ok := st.(*ast.IfStmt); ok {
+						txt := core.ExprStr(ifs.Cond)
+						ast.Inspect(ifs.Cond, func(x ast.Node) bool {
+							if id, ok := x.(*ast.Ident); ok {
+								txt += " " + core.ExprStr(derefLocal(g, id))
+							}
+							return true
+						})
+						if strings.Contains(txt, "Covers") && guard == nil {
+							guard = ifs.Cond
+							gf = g
+						}
+					}
 				}
 			}
 		}
 		c.Need(guard != nil, "guard `tooOld || covered` in MapShards")
-		impl, err := pc.CompileIn(f, guard)
+		impl, err := pc.CompileIn(gf, guard)
 		if err != nil {
 			c.Check("retention-cutoff", f.Name+"/guard", c.P.Pos(guard.Pos()), false, "undecided: "+err.Error())
 			return
 		}
-		ren, err := impl.Rename(map[string]string{`\.Time\(\)$`: "ptime", `^\$l\d+$`: "min", `^call:.*Covers$`: "covered"})
+		ren, err := impl.Rename(map[string]string{`\.Time\(\)$`: "ptime", `^\$l\d+$`: "min", `^\$\d+$`: "min", `^call:.*Covers$`: "covered"})
 		if err != nil {
 			c.Check("retention-cutoff", f.Name+"/guard", c.P.Pos(guard.Pos()), false, "undecided: "+err.Error()+" in "+impl.String())
 			return
